@@ -112,6 +112,11 @@ shape_cases = [
     ("run", ["-tags", "x"], [".", "-v", "b"], "run-program-args"),
     ("test", [], ["./p", "-run", "TestF", "-v"], "test-flags-after-packages"),
     ("build", ["-o", os.devnull], [".", "./p"], "build-two-packages"),
+    ("build", ["-o", "prog-tiny"], ["."], "flag-value-looks-like-garble-flag"),
+    ("build", ["-o=prog-debug"], ["."], "flag-value-looks-like-garble-flag"),
+    ("test", [], ["./p", "-tags", "sometag", "-run", "TestF"], "test-flags-after-packages"),
+    ("test", ["-run", "TestF"], ["./p", "-args", "y", "z"], "test-args"),
+    ("run", [], ["main.go", "a.go-like-arg", "b"], "run-program-args"),
     ("test", ["-run", "TestF"], ["./p", "."], "test-two-packages"),
 ]
 def ref_units(cmd, flags):
@@ -119,7 +124,7 @@ def ref_units(cmd, flags):
     while i < len(flags):
         t = flags[i]; short = t[1:] if t.startswith("--") else t
         name = short.split("=")[0]
-        if "=" in short or univ[cmd].get(name): units.append((name, [short])); i += 1
+        if "=" in short or univ.get(cmd, univ["build"]).get(name): units.append((name, [short])); i += 1
         else: units.append((name, [short] + flags[i+1:i+2])); i += 2
     return units
 def run_cli(idx, cmd, flags, args):
@@ -177,7 +182,7 @@ for (viol, info), case in zip(results, cases):
         fl = next((t for t in case[1] if t.startswith("-")), "")
         s = "%s:%s" % (sig, tag or fl.split("=")[0])
         m = re.match(r"(cli-\w+):--(.+)$", s)
-        if m and univ[case[0]].get("-" + m.group(2)): s = m.group(1) + ":double-dash-boolean"
+        if m and univ.get(case[0], univ["build"]).get("-" + m.group(2)): s = m.group(1) + ":double-dash-boolean"
         R.violation(s, what, {"replay.sh": "cd <module with main.go and p/> && garble %s %s\n" % (case[0], " ".join(case[1] + case[2]))})
 
 # garble's own flags after the command, unknown flags to reverse/map: must be rejected
